@@ -120,7 +120,8 @@ example :
 
 /-! ## B. no in-place write reaches an argument (effect language, T3b) -/
 
-namespace Eff
+section Effects
+open Eff
 
 /-- Soundness of the effect checker, for every function abstraction `f`: if `check f` holds then
     along **every** sequence of statements drawn from the body (any order, repetition, prefix —
@@ -174,7 +175,7 @@ theorem alias_then_write_witness :
 example : check { name := "add_admid", params := ["model"], body := [.fresh "dataset", .write "dataset"] } = true := by
   decide
 
-end Eff
+end Effects
 
 /-- Public functions whose effect program is **not** proved free of writes to arguments.
     `add_admid`, `add_cmt`: genuine in-place writes to the argument model's DataFrame (known findings).
